@@ -57,10 +57,12 @@ def patterns(draw, max_buses=12):
     nsl = draw(st.integers(0, 3))
     slacks = [dict(idx='S%d' % k, bus=b(draw(st.integers(1, nb))), u=draw(st.sampled_from([1, 1, 0])), v0=1.0, a0=0.0)
               for k in range(nsl)]
-    # at most one online slack per bus (two on one bus make the island over-determined at the device level)
+    # mostly at most one online slack per bus (two on one bus make the island over-determined at the device level: such
+    # patterns are classified - 'several' - but not solved); in a labelled minority duplicates on one bus are kept
+    keep_dup = draw(st.integers(0, 2)) == 0
     seen = set()
     for s in slacks:
-        if s['u'] and s['bus'] in seen:
+        if s['u'] and s['bus'] in seen and not keep_dup:
             s['u'] = 0
         if s['u']:
             seen.add(s['bus'])
@@ -162,6 +164,8 @@ def check_islands(ctx, p, ss, buses_off=(), label=''):
     off = set(buses_off)
     for k, s in enumerate(got_sets):
         n_on = sum(1 for sl in p['slacks'] if sl['u'] and sl['bus'] not in off and pos[sl['bus']] in s)
+        if n_on >= 2 and len(set(sl['bus'] for sl in p['slacks'] if sl['u'] and sl['bus'] not in off and pos[sl['bus']] in s)) == 1:
+            ctx.count('pattern:several_slacks_on_one_bus')
         in_nosw = k in ss.Bus.nosw_island
         in_msw = k in ss.Bus.msw_island
         if in_nosw != (n_on == 0) or in_msw != (n_on >= 2):
